@@ -1,0 +1,105 @@
+//go:build verif
+
+// Package c20 re-exports what the C20 verification harness (a different
+// module) needs from internal packages: the real log stores over an in-memory
+// file system, the snapshot reader / writer and the flag file helpers. Add-only;
+// compiled only with -tags verif.
+package c20
+
+import (
+	"io"
+
+	"github.com/lni/dragonboat/v4/config"
+	"github.com/lni/dragonboat/v4/internal/fileutil"
+	"github.com/lni/dragonboat/v4/internal/logdb"
+	"github.com/lni/dragonboat/v4/internal/rsm"
+	"github.com/lni/dragonboat/v4/internal/server"
+	"github.com/lni/dragonboat/v4/internal/tan"
+	"github.com/lni/dragonboat/v4/internal/vfs"
+	"github.com/lni/dragonboat/v4/raftio"
+	pb "github.com/lni/dragonboat/v4/raftpb"
+)
+
+// FS is the file system type used everywhere.
+type FS = vfs.IFS
+
+// NewMemFS returns a new in-memory file system.
+func NewMemFS() FS { return vfs.NewMemFS() }
+
+var (
+	// MetadataFilename is server.MetadataFilename.
+	MetadataFilename = server.MetadataFilename
+	// SnapshotFileSuffix is server.SnapshotFileSuffix.
+	SnapshotFileSuffix = server.SnapshotFileSuffix
+	// HeaderSize is rsm.HeaderSize.
+	HeaderSize = rsm.HeaderSize
+)
+
+func getConfig(fs FS, shards uint64) config.NodeHostConfig {
+	expert := config.GetDefaultExpertConfig()
+	expert.LogDB = config.GetTinyMemLogDBConfig()
+	expert.LogDB.Shards = shards
+	expert.FS = fs
+	return config.NodeHostConfig{Expert: expert}
+}
+
+// OpenPebble opens the default sharded Pebble based LogDB.
+func OpenPebble(fs FS, dir string, shards uint64) (raftio.ILogDB, error) {
+	return logdb.NewDefaultLogDB(getConfig(fs, shards), nil, []string{dir}, []string{})
+}
+
+// OpenTan opens a Tan LogDB.
+func OpenTan(fs FS, dir string) (raftio.ILogDB, error) {
+	cfg := getConfig(fs, 1)
+	cfg.Expert.LogDB.KVWriteBufferSize = 64 * 1024
+	return tan.CreateTan(cfg, nil, []string{dir}, []string{})
+}
+
+// CreateFlagFile is fileutil.CreateFlagFile.
+func CreateFlagFile(dir string, filename string, msg pb.Marshaler, fs FS) error {
+	return fileutil.CreateFlagFile(dir, filename, msg, fs)
+}
+
+// GetFlagFileContent is fileutil.GetFlagFileContent.
+func GetFlagFileContent(dir string, filename string, msg pb.Unmarshaler, fs FS) error {
+	return fileutil.GetFlagFileContent(dir, filename, msg, fs)
+}
+
+// WriteSnapshotFile writes a v2 snapshot file (default checksum type, no
+// compression, empty session section is NOT added: payload is written as is)
+// with the real SnapshotWriter.
+func WriteSnapshotFile(fp string, payload []byte, fs FS) error {
+	w, err := rsm.NewSnapshotWriter(fp, pb.NoCompression, fs)
+	if err != nil {
+		return err
+	}
+	if _, err := w.Write(payload); err != nil {
+		return err
+	}
+	return w.Close()
+}
+
+// ReadSnapshotFile reads the whole payload of a snapshot file through the real
+// SnapshotReader (header validation, block CRCs, tail); panics of the reader
+// propagate to the caller.
+func ReadSnapshotFile(fp string, fs FS) (data []byte, err error) {
+	r, _, err := rsm.NewSnapshotReader(fp, fs)
+	if err != nil {
+		return nil, err
+	}
+	defer func() {
+		if cerr := r.Close(); err == nil {
+			err = cerr
+		}
+	}()
+	data, err = io.ReadAll(r)
+	if err != nil {
+		return nil, err
+	}
+	return data, nil
+}
+
+// GetV2PayloadChecksum is rsm.GetV2PayloadChecksum.
+func GetV2PayloadChecksum(fp string, fs FS) ([]byte, error) {
+	return rsm.GetV2PayloadChecksum(fp, fs)
+}
